@@ -9,6 +9,7 @@ from pbt import engine
 from pbt.engine import Check, Violation, R, B, is_exc, DriverTimeout
 from pbt import polyref as pr
 from pbt.polyref import Unsupported
+from pbt.polycommon import HangJudge
 
 X = "x"
 SYMX = ["symbol", X]
@@ -170,6 +171,61 @@ def conv_tag(d, val):
     if h == "Pow" and d[2][0] == "Integer" and int(d[2][1]) > 0:
         return conv_tag(d[1], val) or pow_tag(val(d[1]), int(d[2][1]), "I")
     return None
+
+
+def hits_threshold(a, b):
+    """a raw N-bit digit of the Kronecker product equals 2**(N-1) exactly (the boundary of `temp < thresh`) while the
+    product is inside the range the slot width supports"""
+    n = bl(min(max(a) + 1, max(b) + 1)) + bl(max(abs(v) for v in a.values())) + bl(max(abs(v) for v in b.values()))
+    prod = dmul(a, b)
+    if max(abs(v) for v in prod.values()) >= 2 ** (n - 1):
+        return False
+    s = abs(sum(c << (n * k) for k, c in prod.items()))
+    while s:
+        if s & ((1 << n) - 1) == 1 << (n - 1):
+            return True
+        s >>= n
+    return False
+
+
+def boundary_pairs():
+    """deterministic search for quadratic pairs whose middle product coefficient is -(2**(N-1) - 1) preceded by a
+    negative coefficient: the only inputs on which the comparison `temp < thresh` of UIntDict::mul is decided by
+    equality (alpha, beta = bit lengths of the largest coefficients, from 3 bits to beyond four limbs)"""
+    import random
+    from math import gcd
+    rng = random.Random(20260922)
+    out = []
+    for alpha, beta in [(3, 3), (3, 4), (4, 4), (5, 7), (8, 8), (10, 13), (16, 16), (31, 32), (32, 33), (60, 64), (64, 64),
+                        (64, 65), (100, 150), (127, 128), (200, 299), (299, 300)]:
+        t = 2 ** (alpha + beta + 1) - 1
+        lo_a, hi_a, lo_b, hi_b = 2 ** (alpha - 1), 2 ** alpha - 1, 2 ** (beta - 1), 2 ** beta - 1
+        found = None
+        for _ in range(4000):
+            p0, p1, p2 = (rng.randint(lo_a, hi_a) for _ in range(3))
+            q2 = rng.randint(lo_b, hi_b)
+            if gcd(p1, p2) != 1:
+                continue
+            base = ((t - p0 * q2) * pow(p1, -1, p2)) % p2
+            if base > hi_b:
+                continue
+            for _ in range(4):
+                q1 = base + p2 * rng.randint(0, (hi_b - base) // p2)
+                rem = t - p0 * q2 - p1 * q1
+                if q1 < 1 or rem <= 0 or rem % p2 or not (1 <= rem // p2 <= hi_b):
+                    continue
+                q0 = rem // p2
+                for a in ({0: -p0, 1: -p1, 2: p2}, {0: -p0, 1: p1, 2: p2}):
+                    for b in ({0: -q0, 1: q1, 2: q2}, {0: -q0, 1: -q1, 2: q2}):
+                        if hits_threshold(a, b):
+                            found = (a, b)
+                if found:
+                    break
+            if found:
+                break
+        if found:
+            out.append(found)
+    return out
 
 
 # ------------------------------------------------------------------ case data <-> reference / recipes
@@ -390,7 +446,7 @@ SMALL = {
 }
 
 
-class C21(Check):
+class C21(HangJudge, Check):
     pid = "C21"
     exe = "driver_poly"
     builds = [("main", ("driver_poly",))]
@@ -418,11 +474,15 @@ class C21(Check):
                    "compared by value; degree/lc/size are then judged against the stored dictionary"]
     tiers = {"quick": {"examples": 1300}, "thorough": {"examples": 40000}}
     timeout = 40.0
+    case_timeout = 240
 
     # ------------------------------------------------------------ generation
     def enumerate(self, tier):
         for tag, cls, text, want in PROBES:
             yield {"k": "probe", "tag": tag, "cls": cls, "prog": text, "want": want}
+        for a, b in boundary_pairs():
+            yield {"k": "kron", "p": [[e, c] for e, c in sorted(a.items())], "q": [[e, c] for e, c in sorted(b.items())], "n": 2,
+                   "boundary": True}
         for cls in ("I", "Q", "E"):
             pool = SMALL[cls]
             k = 0
@@ -611,10 +671,8 @@ class C21(Check):
                     ask(["divides_upoly", p, bref], "div", (ok, quo), "divides_upoly(p,b) b=%s" % sorted(bd.items()))
                     if ok:
                         self.nontriv(("div", cls, str(sorted(pd.items())), str(sorted(bd.items()))))
-        try:
-            res = self.run(stm)
-        except DriverTimeout:
-            self.skip("timeout")
+        res = self.run_nominating(stm)
+        if res is None:
             return
         for idx, kind, want, what in plan:
             r = res[idx]
@@ -699,6 +757,8 @@ class C21(Check):
         qd = {e: int(c) for e, c in idict(Q).items()}
         stm = [["let", SYMX], ["let", ctor(cls, case["p"], "dict")], ["let", ctor(cls, case["q"], "vec")]]
         plan = []
+        if case.get("boundary"):
+            self.cls("kron:threshold_boundary_pair" if hits_threshold(pd, qd) else "kron:threshold_boundary_pair_stale")
         for (a, b, ad, bd, nm) in ((1, 2, pd, qd, "p*q"), (2, 1, qd, pd, "q*p"), (1, 1, pd, pd, "p*p")):
             if self.known(mul_upoly_tag(ad, bd)):
                 continue
@@ -724,10 +784,8 @@ class C21(Check):
             stm.append(["let", ctor(cls, [[e, c] for e, c in sorted(prod.items())], "dict")])
             plan.append((len(stm), "divides_upoly(p,p*q)", (ok, quo), pd, qd))
             stm.append(["divides_upoly", R(1), R(len(stm) - 1)])
-        try:
-            res = self.run(stm)
-        except DriverTimeout:
-            self.skip("timeout")
+        res = self.run_nominating(stm)
+        if res is None:
             return
         det = {"p": sorted(pd.items()), "q": sorted(qd.items())}
         for idx, what, want, ad, bd in plan:
@@ -854,10 +912,8 @@ class C21(Check):
                 plan.append((i, c, what))
         if not plan:
             return
-        try:
-            res = self.run(stm)
-        except DriverTimeout:
-            self.skip("timeout")
+        res = self.run_nominating(stm)
+        if res is None:
             return
         det = {"e": e, "expected": pr.show(ref), "tree": edump}
         for i, c, what in plan:
